@@ -7,8 +7,9 @@ vlib/models/c11_completion.py (DESIGN Appendix E.3):
 A. classification - `get_optional_outputs` and
    `TaskOutputs.iter_required_messages` on *every* and/or expression tree of
    up to four leaves over {succeeded, failed, expired, submit_failed, x, y}
-   (53 646 expressions, both tiers) plus random larger expressions, against
-   a truth-table classifier;
+   (53 646 expressions; thorough: all, quick: all up to three leaves and
+   40 % of the four-leaf ones) plus random larger expressions, against a
+   truth-table classifier;
 B. validation - generated flow.cylc files (graph optionality x user
    completion expression) loaded with the real WorkflowConfig; accepted iff
    the consistency table of E.3 has no conflict; ill-formed expressions
@@ -37,8 +38,9 @@ META = {
     'level_text': (
         'All 53 646 and/or expression trees with up to four leaves over six '
         'outputs are classified by the real functions and by an independent '
-        'truth-table model (exhaustive in both tiers), plus random larger '
-        'expressions. Several hundred (quick) / thousand (thorough) '
+        'truth-table model (thorough: exhaustive; quick: all trees up to '
+        'three leaves and a 40 % sample of the four-leaf trees), plus random '
+        'larger expressions. Several hundred (quick) / thousand (thorough) '
         'generated workflow configurations are loaded with the real '
         'WorkflowConfig and acceptance is compared with the documented '
         'graph/expression consistency table; skip-mode default outputs are '
@@ -73,7 +75,7 @@ ASSUMPTIONS = [
 ]
 MIN = {
     'quick': {
-        'classify_exprs': 53646, 'classify_calls': 200000,
+        'classify_exprs': 18000, 'classify_calls': 70000,
         'classify_random_big': 500, 'validation_loads': 250,
         'validation_expect_accept': 60, 'validation_expect_reject': 60,
         'validation_illformed': 30, 'skip_checks': 1500,
@@ -88,6 +90,7 @@ MIN = {
     },
 }
 NCASES = {'quick': 96, 'thorough': 768}
+QUICK_4LEAF_FRACTION = 0.4
 BIG_PER_CASE = {'quick': 8, 'thorough': 10}
 VALID_PER_CASE = {'quick': 6, 'thorough': 8}
 
@@ -584,6 +587,9 @@ def run_case(ctx, i, rng):
     messages = {o: o for o in M.STD}
     messages.update({'x': 'msg of x', 'y': 'y'})
     for idx in range(i, len(_EXPRS), n):
+        if (ctx.tier == 'quick' and _EXPRS[idx][0] == 4
+                and rng.random() >= QUICK_4LEAF_FRACTION):
+            continue
         check_classification(ctx, _expr_at(idx), OUTPUTS8, messages, rng)
     for _ in range(BIG_PER_CASE[ctx.tier]):
         random_big(ctx, rng)
@@ -598,6 +604,7 @@ def finalize(merged, tier):
     cov = {
         'exhaustive': c.get('classify_exprs', 0) == 53646
         and not merged['truncated'],
+        'expressions_classified': c.get('classify_exprs', 0),
         'exhaustive_subspace': 'all and/or trees with <= 4 leaves over '
                                'succeeded, failed, expired, submit_failed, '
                                'x, y (53 646 expressions)',
